@@ -4,6 +4,8 @@ P="$1"; shift
 git -C /repo apply "$P" || exit 2
 for id in "$@"; do /verif/check "$id" quick 2>&1 | grep -E "VIOLATION|KNOWN-FINDING|obligations|disagree" ; done
 git -C /repo checkout -- .
+# the evidence files of these runs describe the patched tree: put back the committed ones (of the unchanged tree)
+git -C /verif checkout -- evidence 2>/dev/null
 python3 /verif/tools/extract_tables.py /repo /verif/lean/QM/Generated/Tables.lean /verif/build/tables.json >/dev/null
 # rebuild the binary from the restored tree so that ad-hoc probes do not use the mutant build
 RUSTFLAGS="--cfg quadlet_rs_verif" CARGO_NET_OFFLINE=true cargo build --offline --quiet --manifest-path /repo/Cargo.toml --target-dir /verif/build/target 2>/dev/null
